@@ -231,7 +231,7 @@ class LeanSide:
         # audit
         hits = self.forbidden_scan()
         rep["forbidden"] = hits
-        audit = os.path.join(LEAN, f".audit_{self.pid}.lean")
+        audit = os.path.join(LEAN, f".audit_{self.pid}_{os.getpid()}.lean")
         with open(audit, "w") as fh:
             for m_ in mods:
                 fh.write(f"import {m_}\n")
